@@ -21,9 +21,33 @@ var decidedByTable = map[string]string{
 	// a table over a day algebra in which the components of a moment are opaque (compared like with like or handed
 	// to a constructor together): a date taken apart and calculated with is reported there as not followed
 	"calendar.(*Lunar).GetOtherFestivals": "R13.5",
+	// followed for every lunar year 0..9999 against (2026 - year) mod 9
+	"calendar.(*LunarYear).GetNineStar": "R16.5",
 }
 
 var equivalentInputs = map[string]map[string]string{}
+
+// auxDecidedBy: accessors that hand their own date to a builder decided by evaluation. Which pillar fields of the
+// object built there are read (the "aux:" inputs: functions of the date handed over, never inputs of their own) is
+// then the builder's business, decided by the rule named.
+var auxDecidedBy = map[string]string{
+	"calendar.(*Lunar).GetTime":  "R05.3 (NewLunarTime, followed for every hour and day stem)",
+	"calendar.(*Lunar).GetTimes": "R05.3 (NewLunarTime, followed for every hour and day stem)",
+}
+
+// auxOnlyDifference: the two input lists differ in "aux:" atoms only.
+func auxOnlyDifference(a, b []string) bool {
+	strip := func(xs []string) []string {
+		var out []string
+		for _, x := range xs {
+			if !strings.HasPrefix(x, "aux:") {
+				out = append(out, x)
+			}
+		}
+		return out
+	}
+	return equalStrs(strip(a), strip(b))
+}
 
 func r17_7(c *Ctx, r *Report) {
 	const rule = "R17.7"
